@@ -74,7 +74,9 @@ def scenario(seed, snap, duration, thorough):
             it.cancel()
             # let the backlog drain: every consumer handles at most one datagram per 0.1 s poll, the unhandled one needs two polls
             drained = False
-            for _ in range(400):
+            # every datagram that nobody takes costs the unhandled consumer patience + 1 polls, a packet one poll of the packet consumer
+            backlog = cl.spa._protocol.queue.qsize() if cl.spa._protocol else 0
+            for _ in range(400 + 8 * backlog):
                 if cl.spa._protocol is None or cl.spa._protocol.queue.qsize() == 0:
                     drained = True
                     break
@@ -165,7 +167,7 @@ def run(ctx):
         if stats["max_polls_at_head"] > patience + 2:
             ctx.fail("dispatch:head_of_line", "a datagram stayed at the head for %d polls of the unhandled consumer" % stats["max_polls_at_head"], {"snapshot": snap})
         if not drained:
-            ctx.fail("dispatch:left_in_queue", "the queue never ran empty although the consumers polled for 40 s after the last injected arrival (%d left)" % qlen, {"snapshot": snap})
+            ctx.fail("dispatch:left_in_queue", "the queue never ran empty although the consumers polled for 40 s + 0.8 s per datagram queued at the end of the injections (%d left)" % qlen, {"snapshot": snap})
         if not mirror and ok:
             # mis-addressed STATP (ff ff at position 5) must not have reached the structure; other differences are refresh races (C09)
             pass
